@@ -19,6 +19,14 @@ Theorem C04_prefix_always : forall y i, reachable y -> let s := stream_of y i in
 Proof. exact prefix_always. Qed.
 Print Assumptions C04_prefix_always.
 
+(* ... position by position: the n-th frame storage received is the n-th frame the camera delivered, unchanged in every
+   component (payload tag, frame id n, hardware id n, shape code: C05's "shape is the one the camera reported") *)
+Theorem C04_stored_frames_unchanged : forall y i n f,
+  reachable y -> nth_error (stored (stream_of y i)) n = Some f ->
+  nth_error (delivered (stream_of y i)) n = Some f /\ f_id f = N.of_nat n /\ f_hw f = N.of_nat n /\ f_tag f = cam_tag (stream_of y i).
+Proof. exact stored_frames_unchanged. Qed.
+Print Assumptions C04_stored_frames_unchanged.
+
 (* completeness: when acquire_stop returns for an acquisition whose source thread was created (start succeeded) and that
    was neither aborted nor hit by a camera or storage fault, storage has received exactly the frames the camera
    delivered, and there are max_frame_count of them *)
